@@ -569,7 +569,7 @@ func (w *world) pairVerify(cn, ctrl, variant string) string {
 				success = true
 			}
 		}
-	case "badsig", "unknown", "reordered", "stale", "zerokey", "randkey", "flip", "inner-garbage", "short0", "short7", "short15", "short16", "reflect", "accname":
+	case "badsig", "unknown", "unknowntail", "reordered", "stale", "zerokey", "randkey", "flip", "inner-garbage", "short0", "short7", "short15", "short16", "reflect", "accname":
 		fresh()
 		if _, ok := step(v.m1(nil, w.accLTPK)); ok {
 			name, signer, vv := id.name, id.priv, variant
@@ -579,6 +579,11 @@ func (w *world) pairVerify(cn, ctrl, variant string) string {
 				vv = ""
 			case "unknown":
 				name = "nobody-" + id.name
+				vv = ""
+			case "unknowntail":
+				// a name nobody paired under that differs from a paired one only in its last byte, signed with that
+				// pairing's key over the claimed name
+				name = id.name[:len(id.name)-1] + string([]byte{id.name[len(id.name)-1] ^ 1})
 				vv = ""
 			case "reflect", "accname":
 				name = v.accName
